@@ -1,5 +1,5 @@
 """C12 — every emitted value serialises to valid JSON that reads back equal (docs/C12.md, DESIGN.md §5 C12)."""
-import json, os, resource, sys
+import json, os, re, resource, sys
 import verif as V
 
 PROP = "C12"
@@ -44,7 +44,7 @@ def _balance(path):
 def sizes(tier):
     if tier == "quick":
         return dict(strings=1500, floats=1500, containers=40, run=40, yaml=150)
-    return dict(strings=60000, floats=200000, containers=1500, run=1200, yaml=6000)
+    return dict(strings=60000, floats=120000, containers=600, run=1200, yaml=6000)
 
 
 def run(tier, seed):
@@ -96,7 +96,8 @@ def run(tier, seed):
                 c.broken_correspondence("harness-run:" + s, None, V.tail(out, 40))
                 continue
             for v in (st.get("impl_violations") or []):
-                c.failing_input("implementation-only oracle (%s)" % s, v[:400], v)
+                case, _, det = v.partition(" :: ")
+                c.failing_input("implementation-only oracle (%s)" % s, case, det or v)
             if s == "yaml":
                 c.evaluations += st.get("lines", 0)
                 continue
@@ -119,7 +120,7 @@ def run(tier, seed):
     for s, line, verdict in mism[:10]:
         if line not in sbad:
             c.broken_correspondence("c12-" + s, short(line), "model expected: " + verdict[:2000] + "\n" + line[:4000])
-    rule = ("strings: all strings of length <= 2 over a 70+ letter alphabet (every control byte, quote, backslash, DEL, "
+    rule = ("strings: all strings of length <= 2 over an 84-letter alphabet (every control byte, quote, backslash, DEL, "
             "UTF-8 lead/continuation bytes, multi-byte characters incl. U+2028/2029/FFFD, encoded surrogates, overlongs), "
             "length 3-4 over lead/continuation bytes, x[b]y for every byte b, random strings; each through Marshal, tojson, "
             "@json, @text, tostring, the command's encoder (plain and coloured), as object key and array element. "
@@ -138,5 +139,22 @@ def short(line):
 def replay(path):
     d = json.load(open(path))
     print(json.dumps(d, indent=1)[:4000])
-    print("replay of a C12 case re-runs the streams with the recorded seed:", d.get("seed"))
+    case = d.get("case") or ""
+    m = re.match(r"^yaml indent=(\S+) value=(.*)$", case, flags=re.S)
+    if m:
+        # one canonical YAML case: run it on the implementation again
+        _stack()
+        exe_h, hlog = V.build_harness("c12")
+        if exe_h is None:
+            print(V.tail(hlog, 20))
+            return 2
+        rc, out, cases, st = V.run_harness("c12", "yamlcase", d.get("seed", 1), 0, "quick",
+                                           extra=[m.group(1), m.group(2)], name="c12-yamlcase")
+        viol = st.get("impl_violations") or []
+        for v in viol:
+            print("REPRODUCED:", v)
+        if not viol:
+            print("not reproduced: the round trip gives the value back")
+        return 1 if viol else 0
+    print("replay of a C12 model/spec case re-runs the streams with the recorded seed:", d.get("seed"))
     return run("quick", d.get("seed", 1))
